@@ -6,12 +6,15 @@ names=[l.strip() for l in open('/verif/gen/cmdlist.txt') if l.strip() and not l[
 grids={'C03':{'quick':{'len':['0','2']},'thorough':{'len':['0','1','3']}},
        'C04':{'quick':{'len':['0','2']},'thorough':{'len':['0','1','2','3','4']}},
        'C05':{'quick':{'len':['1']},'thorough':{'len':['0','3']}}}
+# per-structure overrides: NegotiateResponse carries two NUL-terminated UTF-16 names, whose interesting inputs need >= 2 code units
+override={('C04','NegotiateResponse'):{'quick':{'len':['0','2','4']},'thorough':{'len':['0','1','2','3','4','6']}},
+          ('C05','NegotiateResponse'):{'quick':{'len':['1','4']},'thorough':{'len':['0','3','6']}}}
 for p in ('C03','C04','C05'):
     fn='/verif/props/%s.json'%p
     d=json.load(open(fn))
     keep=[g for g in d['groups'] if not g['harness'].startswith('H_CMD_')]
     gen=[{'pkg':'network/smb/smb_v10/message/commands','harness':'H_CMD_'+n,'check_prefix':[p+'/'],
-          'lossy_fmt':True,'no_cosim':True,'grid':grids[p]} for n in names]
+          'lossy_fmt':True,'no_cosim':True,'grid':override.get((p,n),grids[p])} for n in names]
     d['groups']=gen+keep if p!='C03' else keep[:0]+gen+keep
     json.dump(d,open(fn,'w'),indent=1)
     print(p,len(d['groups']))
